@@ -56,8 +56,8 @@ def coord(draw, spec):
             v = -v
     else:
         v = draw(gen.real(-3, 2, zero=0.))
-    if spec["name"] == "IndicatorBox":
-        v = min(max(v, 0.), spec["alpha"])
+    if spec["name"] == "IndicatorBox" and not draw(st.sampled_from([False, False, False, True])):
+        v = min(max(v, 0.), spec["alpha"])     # mostly inside the box; 1 in 4 coordinates may leave it (value-only judgement)
     return v
 
 
@@ -240,6 +240,12 @@ def check_scalar(case):
             if abs(u - w[j]) > 1e-9 * (1 + abs(w[j]) + s * abs(grad_full[j])):
                 viol.append(Viol(dict(sig0, kind="score-zero-but-not-prox-fixed-point"),
                                  f"{name}: stationary w_j={w[j]!r}, g={grad_full[j]!r} but prox(w - s g, s={s!r}) = {u!r}; params {spec}"))
+    # (e') the value function carries the constraint: +inf wherever a configured positivity / box constraint is violated
+    if not feasible:
+        val = float(skp.value(w))
+        if not math.isinf(val):
+            viol.append(Viol(dict(sig0, kind="finite-value-at-infeasible-point"),
+                             f"{name}.value({w.tolist()}) = {val!r} although the point violates the penalty's constraint (documented value: +inf); params {spec}"))
     # (e) value / is_penalized / generalized_support
     if feasible:
         val = float(skp.value(w))
